@@ -144,7 +144,8 @@ def c03e(ctx, tu):
                     o = Oracle(calls={A["set_limits"]: setl, A["get_lock"]: ("lock",),
                                       "std::unique_ptr::operator->": ("ptr", ("obj", "x")),
                                       "std::move": ("obj", "m"), "ctor std::logic_error": ("obj", "exc"),
-                                      "ctor trompeloeil::call_modifier": ("obj", "ret")},
+                                      "ctor trompeloeil::call_modifier": ("obj", "ret"),
+                                      "ctor std::unique_lock": ("lock",), "ctor std::unique_ptr": ("obj", "up")},
                                members={"trompeloeil::rt_multiplicity::low": lo, "trompeloeil::rt_multiplicity::high": hi,
                                         "trompeloeil::call_modifier::matcher": ("obj", "matcher"),
                                         "trompeloeil::call_matcher::sequences": ("obj", "seq")},
